@@ -420,6 +420,12 @@ func (_this *Context) ValidateContentsMarkerIDString(contents string) {
 	}
 }
 
+func (_this *Context) ValidateMediaType(mediaType string) {
+	if !utf8.ValidString(mediaType) {
+		panic(fmt.Errorf("media type is not valid UTF-8: %v", mediaType))
+	}
+}
+
 func (_this *Context) ValidateNothing(_ []byte) {
 	// Nothing to check
 }
